@@ -4,15 +4,17 @@ from ..flow import (resolver, peel, guards_of, rel_fact, aggregates, show, edge_
                     call_guarded, backward, _rv_locals)
 from ..facts import AnchorMissing, op_const_int
 
-LEVEL = ("narrow: decides four code-shape facts two of whose violations were confirmed to change the "
-         "meaning of the constraint between variants — every function that builds or extends a "
-         "time-table compares the resulting profile height with the capacity, in itself, in its callee "
-         "or right after the call (H3); no time value shares its type with an in-band 'absent' sentinel "
-         "(H4); the incremental propagators never discard pending updates without a rebuild or marking "
-         "the time-table outdated (H5); a propagator that overrides notify_backtrack registers for "
-         "backtrack events and vice versa, and the non-incremental path rebuilds (H1/H2). Everything "
-         "else about the 144 variants — in particular the numbers they compute and zero-duration "
-         "tasks — is NOT decided")
+LEVEL = ('narrow: decides four code-shape facts two of whose violations were confirmed to change the '
+         'meaning of the constraint between variants — every function that builds or extends a time-'
+         'table compares the resulting profile height with the capacity, in itself, in its callee or '
+         "right after the call (H3); no time value shares its type with an in-band 'absent' sentinel "
+         '(H4); the incremental propagators never discard pending updates without a rebuild or marking'
+         ' the time-table outdated (H5); a propagator that overrides notify_backtrack registers for '
+         'backtrack events and vice versa, and the non-incremental path rebuilds (H1/H2). no update of'
+         ' the running usage reaches the construction of a profile without a capacity comparison (H6);'
+         ' a profile interval is built exactly when it is non-empty (H7 GUARD-TIGHT, decided on a '
+         'window). Everything else about the 144 variants — in particular the numbers they compute and'
+         ' zero-duration tasks — is NOT decided')
 TECHNIQUE = "static analysis: must-pass / sentinel taint / dominance rules over rustc MIR"
 
 
